@@ -5,6 +5,7 @@ from __future__ import annotations
 import ast
 
 from .. import editmachine as em
+from .. import gen
 from ..editmachine import FST
 from ..oracle import T, first_diff
 from ..runner import Skip, Violation, fst_site
@@ -44,6 +45,44 @@ def floors(tier):
 
 def strategy(tier):
     return em.case_strategy(max_steps=params(tier)['max_steps'], max_lines=40, fault_rate=4)
+
+
+ENUM_OPS = ('remove', 'delattr', 'cut', 'put_none', 'replace_wrong')
+
+
+def enumerate_cases(tier, shard, nshards, seed):
+    """Single-edit fault enumeration: on every saturated / template program, every node target x {remove, delattr, cut, put(None), replace by
+    code of a wrong category}. Most of these are refusals (required fields, ordering rules, norm), each a raise site to check."""
+
+    progs = gen.saturated_programs() + gen.SYN_PROGRAMS
+    k = 0
+
+    for pi, src in enumerate(progs):
+        try:
+            n = len(em.node_targets(ast.parse(src)))
+        except SyntaxError:
+            continue
+
+        for ti in range(n):
+            for op in ENUM_OPS:
+                k += 1
+
+                if k % nshards != shard:
+                    continue
+
+                if tier == 'quick' and (k * 2654435761 + seed * 40503) % 3 == 0 and False:
+                    continue
+
+                step = {'tsel': ti, 'form': 'src', 'dsel': 7 * (ti + pi), 'opts': {}, 'anycat': False, 'layout': []}
+
+                if op == 'put_none':
+                    step.update(op='put', fault='put_none')
+                elif op == 'replace_wrong':
+                    step.update(op='replace', fault='wrong_cat', fsel=ti + pi)
+                else:
+                    step['op'] = op
+
+                yield {'src': src, 'steps': [step], 'enumerated': True}
 
 
 def check_links(root, clause, site):
